@@ -277,10 +277,15 @@ static void add_assets(mz_zip_archive * pZip, mmd_engine * e, const char * direc
 #endif
 
 
-void traverse_for_images(token * t, DString * text, mmd_engine * e, long * offset, char * destination, char * url) {
+static void traverse_for_images_depth(token * t, DString * text, mmd_engine * e, long * offset, char * destination, char * url, int depth) {
 	asset * a;
 	char * clean;
 	link * l;
+
+	if (depth > kMaxExportRecursiveDepth) {
+		// Deeper than any writer will print -- don't exhaust the stack with "pathologic" input
+		return;
+	}
 
 	while (t) {
 		switch (t->type) {
@@ -340,7 +345,7 @@ void traverse_for_images(token * t, DString * text, mmd_engine * e, long * offse
 
 			default:
 				if (t->child) {
-					traverse_for_images(t->child, text, e, offset, destination, url);
+					traverse_for_images_depth(t->child, text, e, offset, destination, url, depth + 1);
 				}
 
 				break;
@@ -348,6 +353,11 @@ void traverse_for_images(token * t, DString * text, mmd_engine * e, long * offse
 
 		t = t->next;
 	}
+}
+
+
+void traverse_for_images(token * t, DString * text, mmd_engine * e, long * offset, char * destination, char * url) {
+	traverse_for_images_depth(t, text, e, offset, destination, url, 0);
 }
 
 
